@@ -10,6 +10,8 @@ use crate::{
 #[derive(Clone, Copy, Debug, PartialEq, Eq, Hash, Serialize)]
 pub enum OpWhat {
     Send,
+    /// a send whose future the client dropped before it resolved
+    SendAbandoned,
     Call,
     /// a call whose future the client dropped before it resolved
     CallAbandoned,
